@@ -1,2 +1,274 @@
+/* io.run: build a chain from the public constructors (plus the recording probe
+ * sink), feed it chunk by chunk, report per-step verdicts and what the sinks hold. */
 #include "hx.h"
-const op_t ops_io[] = { { NULL, NULL } };
+#include <jose/io.h>
+#include <jose/b64.h>
+#include "hooks.h"
+#include "hx_io.h"
+
+/* ---- probe sink: records every call, fails on call number fail_at ---- */
+typedef struct {
+    jose_io_t io;
+    long long fail_at;
+    long long calls;
+    json_t *log;
+} probe_t;
+
+static bool
+probe_feed(jose_io_t *io, const void *in, size_t len)
+{
+    probe_t *p = (probe_t *) io;
+    char *hex;
+    json_t *h = hx_hex(in, len);
+    size_t n = json_string_length(h);
+    hex = malloc(n + 3);
+    memcpy(hex, "f:", 2);
+    memcpy(hex + 2, json_string_value(h), n + 1);
+    json_array_append_new(p->log, json_string(hex));
+    free(hex);
+    json_decref(h);
+    return p->calls++ != p->fail_at;
+}
+
+static bool
+probe_done(jose_io_t *io)
+{
+    probe_t *p = (probe_t *) io;
+    json_array_append_new(p->log, json_string("d"));
+    return p->calls++ != p->fail_at;
+}
+
+static void
+probe_free(jose_io_t *io)
+{
+    probe_t *p = (probe_t *) io;
+    json_decref(p->log);
+    free(p);
+}
+
+jose_io_t *
+hx_probe(long long fail_at)
+{
+    probe_t *p = calloc(1, sizeof(*p));
+    p->io.feed = probe_feed;
+    p->io.done = probe_done;
+    p->io.free = probe_free;
+    p->fail_at = fail_at;
+    p->log = json_array();
+    return jose_io_incref(&p->io);
+}
+
+json_t *
+hx_probe_log(jose_io_t *io)
+{
+    return json_incref(((probe_t *) io)->log);
+}
+
+/* ---- leaves ---- */
+void
+hx_leaves_free(hx_leaves_t *L)
+{
+    for (size_t i = 0; i < L->n; i++) {
+        hx_leaf_t *l = &L->l[i];
+        jose_io_decref(l->io);
+        if (l->kind == LEAF_SINK) {
+            /* the sink's free() released the buffer when it held the last reference */
+        } else if (l->kind == LEAF_BUFFER) {
+            free(l->raw);
+        } else if (l->kind == LEAF_FILE) {
+            if (l->file)
+                fclose(l->file);
+        }
+    }
+    for (size_t i = 0; i < L->nios; i++)
+        jose_io_decref(L->ios[i]);
+    L->n = 0;
+    L->nios = 0;
+}
+
+static jose_io_t *
+keep(hx_leaves_t *L, jose_io_t *io)
+{
+    if (io && L->nios < HX_MAX_LEAVES * 4)
+        L->ios[L->nios++] = jose_io_incref(io);
+    return io;
+}
+
+json_t *
+hx_leaves_report(hx_leaves_t *L)
+{
+    json_t *out = json_array();
+    for (size_t i = 0; i < L->n; i++) {
+        hx_leaf_t *l = &L->l[i];
+        json_t *o = json_object();
+        switch (l->kind) {
+        case LEAF_SINK:
+            json_object_set_new(o, "k", json_string("sink"));
+            json_object_set_new(o, "data", hx_hex(l->buf ? l->buf : "", l->buf ? l->len : 0));
+            break;
+        case LEAF_BUFFER: {
+            bool ok = true;
+            for (size_t j = 0; j < CANARY; j++)
+                if (l->raw[j] != CANARY_BYTE || l->raw[CANARY + l->cap + j] != CANARY_BYTE)
+                    ok = false;
+            json_object_set_new(o, "k", json_string("buffer"));
+            json_object_set_new(o, "canary", json_boolean(ok && l->len <= l->cap));
+            json_object_set_new(o, "data", hx_hex(l->raw + CANARY, l->len <= l->cap ? l->len : 0));
+            break;
+        }
+        case LEAF_PROBE:
+            json_object_set_new(o, "k", json_string("probe"));
+            json_object_set_new(o, "log", hx_probe_log(l->io));
+            break;
+        case LEAF_FILE: {
+            long n;
+            char *b;
+            fflush(l->file);
+            n = ftell(l->file);
+            b = malloc(n > 0 ? n : 1);
+            rewind(l->file);
+            n = fread(b, 1, n > 0 ? n : 0, l->file);
+            json_object_set_new(o, "k", json_string("sink"));
+            json_object_set_new(o, "data", hx_hex(b, n));
+            free(b);
+            break;
+        }
+        }
+        json_array_append_new(out, o);
+    }
+    return out;
+}
+
+/* ---- chain builder ----  desc: ["malloc"] | ["file"] | ["buffer",cap] | ["probe",failAt|null]
+ *   | ["b64enc",next] | ["b64dec",next] | ["hash",name,next] | ["deflate",next] | ["inflate",next]
+ *   | ["plex",all,[next...]]
+ * Returns a new reference (NULL if a constructor refused). */
+jose_io_t *
+hx_build_chain(json_t *d, hx_leaves_t *L)
+{
+    const char *k = json_string_value(json_array_get(d, 0));
+    if (!k)
+        return NULL;
+    if (strcmp(k, "malloc") == 0 || strcmp(k, "file") == 0 || strcmp(k, "buffer") == 0 ||
+        strcmp(k, "probe") == 0) {
+        hx_leaf_t *l;
+        if (L->n >= HX_MAX_LEAVES)
+            return NULL;
+        l = &L->l[L->n++];
+        memset(l, 0, sizeof(*l));
+        if (strcmp(k, "malloc") == 0) {
+            l->kind = LEAF_SINK;
+            l->io = jose_io_malloc(NULL, &l->buf, &l->len);
+        } else if (strcmp(k, "file") == 0) {
+            l->kind = LEAF_FILE;
+            l->file = tmpfile();
+            l->io = jose_io_file(NULL, l->file);
+        } else if (strcmp(k, "buffer") == 0) {
+            l->kind = LEAF_BUFFER;
+            l->cap = (size_t) json_integer_value(json_array_get(d, 1));
+            l->raw = malloc(l->cap + 2 * CANARY);
+            memset(l->raw, CANARY_BYTE, l->cap + 2 * CANARY);
+            l->len = l->cap;
+            l->io = jose_io_buffer(NULL, l->raw + CANARY, &l->len);
+        } else {
+            json_t *fa = json_array_get(d, 1);
+            l->kind = LEAF_PROBE;
+            l->io = hx_probe(json_is_integer(fa) ? json_integer_value(fa) : -1);
+        }
+        return jose_io_incref(l->io);
+    }
+    if (strcmp(k, "plex") == 0) {
+        json_t *subs = json_array_get(d, 2);
+        size_t n = json_array_size(subs);
+        jose_io_t **nexts = calloc(n + 1, sizeof(*nexts));
+        jose_io_t *io = NULL;
+        bool ok = true;
+        for (size_t i = 0; i < n; i++) {
+            nexts[i] = hx_build_chain(json_array_get(subs, i), L);
+            if (!nexts[i]) {
+                ok = false;
+                break;
+            }
+        }
+        if (ok)
+            io = keep(L, jose_io_multiplex(NULL, nexts, json_is_true(json_array_get(d, 1))));
+        for (size_t i = 0; i < n; i++)
+            jose_io_decref(nexts[i]);
+        free(nexts);
+        return io;
+    }
+    {
+        json_t *nd = json_array_get(d, json_array_size(d) - 1);
+        jose_io_t *next = hx_build_chain(nd, L);
+        jose_io_t *io = NULL;
+        if (!next)
+            return NULL;
+        if (strcmp(k, "b64enc") == 0)
+            io = jose_b64_enc_io(next);
+        else if (strcmp(k, "b64dec") == 0)
+            io = jose_b64_dec_io(next);
+        else if (strcmp(k, "hash") == 0) {
+            const jose_hook_alg_t *a = jose_hook_alg_find(JOSE_HOOK_ALG_KIND_HASH,
+                                                          json_string_value(json_array_get(d, 1)));
+            io = a ? a->hash.hsh(a, NULL, next) : NULL;
+        } else if (strcmp(k, "deflate") == 0 || strcmp(k, "inflate") == 0) {
+            const jose_hook_alg_t *a = jose_hook_alg_find(JOSE_HOOK_ALG_KIND_COMP, "DEF");
+            if (a)
+                io = k[0] == 'd' ? a->comp.def(a, NULL, next) : a->comp.inf(a, NULL, next);
+        }
+        jose_io_decref(next);
+        return keep(L, io);
+    }
+}
+
+json_t *
+hx_run_chain(jose_io_t *io, json_t *feeds, hx_leaves_t *L)
+{
+    json_t *res = json_object();
+    json_t *fv = json_array();
+    bool ok = true;
+    size_t i;
+    json_t *f;
+
+    json_array_foreach(feeds, i, f) {
+        size_t len = 0;
+        uint8_t *b = hx_unhex(json_string_value(f), &len);
+        /* exact-size heap copy: any over-read is an ASan report */
+        uint8_t *e = malloc(len ? len : 1);
+        memcpy(e, b, len);
+        ok = io->feed(io, e, len);
+        free(e);
+        free(b);
+        json_array_append_new(fv, json_boolean(ok));
+        if (!ok)
+            break;
+    }
+    json_object_set_new(res, "feeds", fv);
+    if (ok)
+        json_object_set_new(res, "done", json_boolean(io->done(io)));
+    else
+        json_object_set_new(res, "done", json_null());
+    json_object_set_new(res, "leaves", hx_leaves_report(L));
+    return res;
+}
+
+static json_t *
+op_run(json_t *args)
+{
+    hx_leaves_t L = { 0 };
+    jose_io_t *io = hx_build_chain(json_object_get(args, "chain"), &L);
+    json_t *res;
+    if (!io) {
+        hx_leaves_free(&L);
+        return json_pack("{s:b}", "nochain", 1);
+    }
+    res = hx_run_chain(io, json_object_get(args, "feeds"), &L);
+    jose_io_decref(io);
+    hx_leaves_free(&L);
+    return res;
+}
+
+const op_t ops_io[] = {
+    { "io.run", op_run },
+    { NULL, NULL }
+};
